@@ -206,12 +206,15 @@ def run_case(rng, ctx):
                and numpy.allclose(matrix, expected.T, atol=1e-8),
                pyzx_matrix=lambda: numpy.round(matrix, 4).tolist(),
                expected=lambda: numpy.round(expected.T, 4).tolist(), **witness)
+    before = repr(describe(graph))
     try:
         back = zx.Diagram.from_pyzx(graph)
     except Exception as err:
         ctx.fail("import-well-typed", exception=type(err).__name__,
                  message=str(err)[:300], **witness)
         return
+    import_history(ctx, graph, before, back, witness)
+    export_history(rng, ctx, d, graph, expected, witness)
     ok, why = well_typed(back)
     good = ok and len(back.dom) == len(d.dom) and len(back.cod) == len(d.cod)\
         and isinstance(back, zx.Diagram)
@@ -232,6 +235,58 @@ def run_case(rng, ctx):
     if ctx.index < 20:
         ctx.sample(diagram=safe_repr(d, 400), spiders=spiders,
                    features=sorted(features))
+
+
+def import_history(ctx, graph, before, back, witness):
+    """
+    Histories on one graph object: import leaves the graph it was given alone
+    (same vertices, edges, inputs and outputs in the same order), and importing
+    the same object again gives the same diagram.
+    """
+    zx = _ENV["zx"]
+    after = repr(describe(graph))
+    ctx.expect("import-matrix", after == before, kind="argument-unchanged",
+               reason="from_pyzx changed the graph it was given",
+               graph_before=before[:1500], graph_after=after[:1500], **witness)
+    try:
+        again = zx.Diagram.from_pyzx(graph)
+        ctx.expect("import-matrix", again == back, kind="second-import",
+                   reason="importing the same graph object twice gives two "
+                   "different diagrams", first=lambda: safe_repr(back, 1500),
+                   second=lambda: safe_repr(again, 1500), **witness)
+    except Exception as err:
+        ctx.fail("import-well-typed", exception=type(err).__name__,
+                 message=str(err)[:300], kind="second import of the same graph",
+                 **witness)
+
+
+def export_history(rng, ctx, d, graph, expected, witness):
+    """
+    Histories on one diagram object: its first export is edited in place by the
+    caller (pyzx rewrites graphs in place); the diagram did not change, so a
+    second export must still denote it.
+    """
+    pyzx = _ENV["pyzx"]
+    try:
+        spiders = [v for v in graph.vertices()
+                   if graph.type(v) != pyzx.VertexType.BOUNDARY]
+        if spiders:
+            v = spiders[rng.randrange(len(spiders))]
+            graph.set_phase(v, graph.phase(v) + 1)
+        extra = graph.add_vertex(pyzx.VertexType.Z, phase=0.5)
+        graph.scalar.add_phase(0.25)
+        del extra
+    except Exception as err:
+        ctx.count("export_history_edit_raised:" + type(err).__name__)
+    again = d.to_pyzx()
+    matrix = again.to_matrix(preserve_scalar=True)
+    ctx.expect("export-matrix", again is not graph
+               and matrix.shape == expected.T.shape
+               and numpy.allclose(matrix, expected.T, atol=1e-8),
+               history="first export edited in place, diagram exported again",
+               pyzx_matrix=lambda: numpy.round(matrix, 4).tolist(),
+               expected=lambda: numpy.round(expected.T, 4).tolist(), **witness)
+    ctx.count("export_histories")
 
 
 def build_direct_graph(rng):
@@ -276,12 +331,14 @@ def direct_graph_case(rng, ctx):
     graph, ins, outs, spiders = build_direct_graph(rng)
     expected = graph.to_matrix(preserve_scalar=True).T
     witness = dict(graph=lambda: describe(graph))
+    before = repr(describe(graph))
     try:
         back = zx.Diagram.from_pyzx(graph)
     except Exception as err:
         ctx.fail("import-well-typed", exception=type(err).__name__,
                  message=str(err)[:300], **witness)
         return
+    import_history(ctx, graph, before, back, witness)
     ok, why = well_typed(back)
     good = ok and len(back.dom) == len(ins) and len(back.cod) == len(outs)
     ctx.expect("import-well-typed", good, reason=why,
